@@ -154,6 +154,16 @@ theorem serialise_attrs (i : Item) : (serialise i).attrs = i.attrs := by
 theorem beq_except_eq {α} [DecidableEq α] {a b : Except ErrKind α} (h : (a == b) = true) : a = b := by
   simpa using h
 
+theorem wfList_ctorAll (l : List Item) (h : wfList l = true) : ctorAll false true l = .ok () := by
+  induction l with
+  | nil => rfl
+  | cons i r ih =>
+    unfold wfList at h
+    simp only [Bool.and_eq_true] at h
+    have h1 : ctorItem false true i = .ok () := beq_except_eq h.1.1.2
+    simp only [ctorAll, h1]
+    exact ih h.2
+
 mutual
 theorem parse_serialise_wf : ∀ (it : Item), wf it = true → parse (serialise it) = .ok it
   | .mk cls attrs content => by
@@ -165,14 +175,15 @@ theorem parse_serialise_wf : ∀ (it : Item), wf it = true → parse (serialise 
     | none => simp [serialise, parse, hc]
     | some l =>
       have hl := parseList_serialiseList_wf l h.2
-      simp [serialise, parse, hc, hl]
+      have hk := wfList_ctorAll l h.2
+      simp [serialise, parse, hc, hl, hk]
 theorem parseList_serialiseList_wf : ∀ (l : List Item), wfList l = true → parseList (serialiseList l) = .ok l
   | [] => by intro _; simp [serialiseList, parseList]
   | i :: r => by
     intro h
     unfold wfList at h
     simp only [Bool.and_eq_true] at h
-    have h1 : checkDataset i.attrs false true = .ok () := beq_except_eq h.1.1
+    have h1 : checkDataset i.attrs false true = .ok () := beq_except_eq h.1.1.1
     have h2 := parse_serialise_wf i h.1.2
     have h3 := parseList_serialiseList_wf r h.2
     simp [serialiseList, parseList, serialise_attrs, h1, h2, h3]
@@ -362,12 +373,26 @@ theorem scoord3dCheck_err (g : String) (n d : Int) (closed cop : Bool)
 theorem has_cons_self (k : String) (v : AVal) (r : Attrs) : has k ((k, v) :: r) = true := by
   simp [has, List.lookup]
 
-theorem mkScoord_ok_iff (name : Coded) (gt : String) (p : Points) (origin fiducial rel : Option String) (it : Item)
-    (h : mkScoord name gt p origin fiducial rel = .ok it) :
-    ∃ g, enumName Gen.srGraphicTypes gt = some g ∧ Gen.scoordCheck g p.rows.length p.d = .ok true ∧
+theorem axes_ok {n : Nat} {b : Bool} (h : Gen.scoordAxesCheck n = .ok b) : n = 2 := by
+  unfold Gen.scoordAxesCheck at h
+  by_cases e : n = 2
+  · exact e
+  · have : ((n : Int) != 2) = true := by simpa using (show (n : Int) ≠ 2 by omega)
+    simp [this] at h
+
+theorem axes3d_ok {n : Nat} {b : Bool} (h : Gen.scoord3dAxesCheck n = .ok b) : n = 2 := by
+  unfold Gen.scoord3dAxesCheck at h
+  by_cases e : n = 2
+  · exact e
+  · have : ((n : Int) != 2) = true := by simpa using (show (n : Int) ≠ 2 by omega)
+    simp [this] at h
+
+theorem mkScoord_ok_iff (fl : Rat → Rat) (name : Coded) (gt : String) (p : Points) (origin fiducial rel : Option String) (it : Item)
+    (h : mkScoord fl name gt p origin fiducial rel = .ok it) :
+    ∃ g, enumName Gen.srGraphicTypes gt = some g ∧ p.ndim = 2 ∧ Gen.scoordCheck g p.rows.length p.d = .ok true ∧
       (∀ o, origin = some o → enumHas Gen.srPixelOrigins o = true) ∧
       it = .mk .scoord ([("ValueType", .str "SCOORD"), ("ConceptNameCodeSequence", .code name)] ++ relPart rel ++
-        ([("GraphicType", .str gt), ("GraphicData", .rats p.rows.flatten)] ++ optAttr "PixelOriginInterpretation" origin
+        ([("GraphicType", .str gt), ("GraphicData", .rats (p.rows.flatten.map fl))] ++ optAttr "PixelOriginInterpretation" origin
           ++ optAttr "FiducialUID" fiducial)) none := by
   unfold mkScoord at h
   cases hb : base .scoord name rel with
@@ -379,6 +404,10 @@ theorem mkScoord_ok_iff (name : Coded) (gt : String) (p : Points) (origin fiduci
     | none => simp only [hg] at h; cases h
     | some g =>
       simp only [hg] at h
+      cases hx : Gen.scoordAxesCheck p.ndim with
+      | error e => simp only [hx] at h; cases h
+      | ok bx =>
+      simp only [hx] at h
       cases hc : Gen.scoordCheck g p.rows.length p.d with
       | error e => simp only [hc] at h; cases h
       | ok b =>
@@ -388,7 +417,7 @@ theorem mkScoord_ok_iff (name : Coded) (gt : String) (p : Points) (origin fiduci
           · exfalso; revert hc; unfold Gen.scoordCheck; grind (splits := 40)
           · rfl
         subst hb'
-        refine ⟨g, rfl, hc, ?_⟩
+        refine ⟨g, rfl, axes_ok hx, hc, ?_⟩
         cases origin with
         | none =>
           simp only at h
@@ -404,12 +433,12 @@ theorem mkScoord_ok_iff (name : Coded) (gt : String) (p : Points) (origin fiduci
             rw [ha]; simp [optAttr, List.append_assoc]
           · rw [if_neg ho] at h; cases h
 
-theorem mkScoord3d_ok_iff (name : Coded) (gt : String) (p : Points) (fo : String) (fiducial rel : Option String) (it : Item)
-    (h : mkScoord3d name gt p fo fiducial rel = .ok it) :
-    ∃ g, enumName Gen.srGraphicTypes3D gt = some g ∧
+theorem mkScoord3d_ok_iff (fl : Rat → Rat) (name : Coded) (gt : String) (p : Points) (fo : String) (fiducial rel : Option String) (it : Item)
+    (h : mkScoord3d fl name gt p fo fiducial rel = .ok it) :
+    ∃ g, enumName Gen.srGraphicTypes3D gt = some g ∧ p.ndim = 2 ∧
       Gen.scoord3dCheck g p.rows.length p.d (firstEqLast p.rows) (coplanar p.rows) = .ok true ∧
       it = .mk .scoord3d ([("ValueType", .str "SCOORD3D"), ("ConceptNameCodeSequence", .code name)] ++ relPart rel ++
-        ([("GraphicType", .str gt), ("GraphicData", .rats p.rows.flatten), ("ReferencedFrameOfReferenceUID", .str fo)]
+        ([("GraphicType", .str gt), ("GraphicData", .rats (p.rows.flatten.map fl)), ("ReferencedFrameOfReferenceUID", .str fo)]
           ++ optAttr "FiducialUID" fiducial)) none := by
   unfold mkScoord3d at h
   cases hb : base .scoord3d name rel with
@@ -421,6 +450,10 @@ theorem mkScoord3d_ok_iff (name : Coded) (gt : String) (p : Points) (fo : String
     | none => simp only [hg] at h; cases h
     | some g =>
       simp only [hg] at h
+      cases hx : Gen.scoord3dAxesCheck p.ndim with
+      | error e => simp only [hx] at h; cases h
+      | ok bx =>
+      simp only [hx] at h
       cases hc : Gen.scoord3dCheck g p.rows.length p.d (firstEqLast p.rows) (coplanar p.rows) with
       | error e => simp only [hc] at h; cases h
       | ok b =>
@@ -431,7 +464,7 @@ theorem mkScoord3d_ok_iff (name : Coded) (gt : String) (p : Points) (fo : String
           · rfl
         subst hb'
         cases h
-        refine ⟨g, rfl, hc, ?_⟩
+        refine ⟨g, rfl, axes3d_ok hx, hc, ?_⟩
         rw [ha]; simp [List.append_assoc]
 
 def tcoordAttrs (ds : Rat → Rat) (rangeType : String) : TArg → Attrs
@@ -518,26 +551,53 @@ theorem checkDataset_of_wf (c : Item) (h : wf c = true) (hr : has "RelationshipT
     unfold checkDataset
     simp only [hv, enumHas_of_enumName hn, Bool.not_true, Bool.false_eq_true, ↓reduceIte, hr, checkRel_ok]
 
-theorem wfList_of_all (cs : List Item) (h : ∀ c ∈ cs, wf c = true ∧ has "RelationshipType" c.attrs = true) :
+/-! the constructor guards of a nested (non-root SR) sequence, over the regenerated `Gen.csCtorCheck` -/
+theorem ctorCheck_child_ok (c : Bool) : Gen.csCtorCheck false true true true c = .ok true := by cases c <;> decide
+theorem ctorCheck_child_norel (c : Bool) : Gen.csCtorCheck false true true false c = .error .attribute := by cases c <;> decide
+theorem ctorCheck_nonsr_ok (c : Bool) : Gen.csCtorCheck false false true false c = .ok true := by cases c <;> decide
+theorem ctorCheck_nonsr_rel (c : Bool) : Gen.csCtorCheck false false true true c = .error .attribute := by cases c <;> decide
+theorem ctorCheck_root_ok : Gen.csCtorCheck true true true false true = .ok true := by decide
+theorem ctorCheck_root_rel (c : Bool) : Gen.csCtorCheck true true true true c = .error .attribute := by cases c <;> decide
+theorem ctorCheck_root_noncontainer : Gen.csCtorCheck true true true false false = .error .type := by decide
+
+theorem ctorItem_child_iff (c : Item) :
+    ctorItem false true c = .ok () ↔ (relValid c.attrs = true ∧ has "RelationshipType" c.attrs = true) := by
+  unfold ctorItem
+  cases hv : relValid c.attrs <;> cases hr : has "RelationshipType" c.attrs <;>
+    simp [ctorCheck_child_ok, ctorCheck_child_norel]
+
+theorem wfList_of_all (cs : List Item) (h : ∀ c ∈ cs, wf c = true ∧ ctorItem false true c = .ok ()) :
     wfList cs = true := by
   induction cs with
   | nil => rfl
   | cons c r ih =>
     unfold wfList
     have hc := h c (by simp)
+    have hr := ((ctorItem_child_iff c).mp hc.2).2
     simp only [Bool.and_eq_true]
-    refine ⟨⟨?_, hc.1⟩, ih (fun q hq => h q (by simp [hq]))⟩
-    rw [checkDataset_of_wf c hc.1 hc.2]
-    simp
+    refine ⟨⟨⟨?_, ?_⟩, hc.1⟩, ih (fun q hq => h q (by simp [hq]))⟩
+    · rw [checkDataset_of_wf c hc.1 hr]; simp
+    · rw [hc.2]; simp
+
+theorem ctorAll_ok_iff (r sr : Bool) (cs : List Item) : ctorAll r sr cs = .ok () ↔ ∀ c ∈ cs, ctorItem r sr c = .ok () := by
+  induction cs with
+  | nil => simp [ctorAll]
+  | cons c l ih =>
+    unfold ctorAll
+    cases hc : ctorItem r sr c with
+    | error e => simp [hc]
+    | ok u => cases u; simp [ih, hc]
 
 theorem setContent_ok {it : Item} {cs : List Item} {it' : Item} (h : setContent it cs = .ok it') :
-    it' = .mk it.cls it.attrs (some cs) ∧ ∀ c ∈ cs, has "RelationshipType" c.attrs = true := by
+    it' = .mk it.cls it.attrs (some cs) ∧ ∀ c ∈ cs, ctorItem false true c = .ok () := by
   unfold setContent at h
-  by_cases ha : (cs.all fun c => has "RelationshipType" c.attrs) = true
-  · rw [if_pos ha] at h
+  cases hc : ctorAll false true cs with
+  | error e => simp only [hc] at h; cases h
+  | ok u =>
+    simp only [hc] at h
     cases h
-    exact ⟨rfl, fun c hc => List.all_eq_true.mp ha c hc⟩
-  · rw [if_neg ha] at h; cases h
+    cases u
+    exact ⟨rfl, (ctorAll_ok_iff false true cs).mp hc⟩
 
 theorem setContent_wf {it : Item} {cs : List Item} {it' : Item} (hw : wf it = true) (hcs : ∀ c ∈ cs, wf c = true)
     (h : setContent it cs = .ok it') : wf it' = true := by
@@ -549,16 +609,16 @@ theorem setContent_wf {it : Item} {cs : List Item} {it' : Item} (hw : wf it = tr
     simp only [Bool.and_eq_true] at hw ⊢
     exact ⟨hw.1, wfList_of_all cs (fun c hc => ⟨hcs c hc, hr c hc⟩)⟩
 
-/-- a child without relationship type is refused by the attribute setter -/
-theorem setContent_refuses (it : Item) (cs : List Item) (h : ∃ c ∈ cs, has "RelationshipType" c.attrs = false) :
-    setContent it cs = .error .attribute := by
-  unfold setContent
-  have : ¬ (cs.all fun c => has "RelationshipType" c.attrs) = true := by
-    intro ha
-    obtain ⟨c, hc, hf⟩ := h
-    have := List.all_eq_true.mp ha c hc
-    rw [hf] at this; cases this
-  rw [if_neg this]
+/-- a child without relationship type (or with one outside the enumeration) is refused by the attribute setter -/
+theorem setContent_refuses (it : Item) (cs : List Item)
+    (h : ∃ c ∈ cs, has "RelationshipType" c.attrs = false ∨ relValid c.attrs = false) : ∀ it', setContent it cs ≠ .ok it' := by
+  intro it' hok
+  obtain ⟨_, hall⟩ := setContent_ok hok
+  obtain ⟨c, hc, hbad⟩ := h
+  have := (ctorItem_child_iff c).mp (hall c hc)
+  rcases hbad with hb | hb
+  · rw [this.2] at hb; cases hb
+  · rw [this.1] at hb; cases hb
 
 /-! ## everything the public constructors can build -/
 
@@ -579,13 +639,91 @@ inductive Built : Item → Prop
       mkImage name c i f s rel = .ok it → Built it
   | waveform (name : Coded) (c i : String) (ch : Option (List (Int × Int))) (rel : Option String) (it : Item) :
       mkWaveform name c i ch rel = .ok it → Built it
-  | scoord (name : Coded) (gt : String) (p : Points) (o f rel : Option String) (it : Item) :
-      mkScoord name gt p o f rel = .ok it → Built it
-  | scoord3d (name : Coded) (gt : String) (p : Points) (fo : String) (f rel : Option String) (it : Item) :
-      mkScoord3d name gt p fo f rel = .ok it → Built it
+  | scoord (fl : Rat → Rat) (name : Coded) (gt : String) (p : Points) (o f rel : Option String) (it : Item) :
+      mkScoord fl name gt p o f rel = .ok it → Built it
+  | scoord3d (fl : Rat → Rat) (name : Coded) (gt : String) (p : Points) (fo : String) (f rel : Option String) (it : Item) :
+      mkScoord3d fl name gt p fo f rel = .ok it → Built it
   | tcoord (ds : Rat → Rat) (name : Coded) (rt : String) (arg : Option TArg) (rel : Option String) (it : Item) :
       mkTcoord ds name rt arg rel = .ok it → Built it
   | content (it : Item) (cs : List Item) (it' : Item) : Built it → (∀ c ∈ cs, Built c) → setContent it cs = .ok it' → Built it'
+
+/-! every built item carries a relationship type of the enumeration, or none -/
+
+theorem shape_relValid (cls : Cls) (vt : String) (name : Coded) (rel : Option String) (extra : Attrs)
+    (hv : ∀ r, rel = some r → enumHas Gen.srRelationshipTypes r = true) (he : extra.lookup "RelationshipType" = none) :
+    relValid (Item.mk cls ([("ValueType", .str vt), ("ConceptNameCodeSequence", .code name)] ++ relPart rel ++ extra) none).attrs = true := by
+  unfold relValid
+  simp only [Item.attrs, lookup_rel vt name rel extra he]
+  cases rel with
+  | none => rfl
+  | some r => simpa using hv r rfl
+
+theorem withAttrs_relValid {cls : Cls} {vtName vt : String} {req : List String} (T : TableOk cls vtName vt req) (name : Coded)
+    (rel : Option String) (extra : Attrs) (it : Item) (h : withAttrs cls name rel extra = .ok it)
+    (he : extra.lookup "RelationshipType" = none) : relValid it.attrs = true := by
+  have hs := withAttrs_shape T name rel extra it h
+  unfold withAttrs at h
+  cases hb : base cls name rel with
+  | error e => rw [hb] at h; cases h
+  | ok a =>
+    rw [hs]
+    exact shape_relValid cls vt name rel extra (base_ok T name rel a hb).2 he
+
+theorem base_of_mkScoord {fl name gt p o f rel it} (h : mkScoord fl name gt p o f rel = .ok it) :
+    ∃ a, base .scoord name rel = .ok a := by
+  unfold mkScoord at h
+  cases hb : base .scoord name rel with
+  | error e => simp only [hb] at h; cases h
+  | ok a => exact ⟨a, rfl⟩
+
+theorem base_of_mkScoord3d {fl name gt p fo f rel it} (h : mkScoord3d fl name gt p fo f rel = .ok it) :
+    ∃ a, base .scoord3d name rel = .ok a := by
+  unfold mkScoord3d at h
+  cases hb : base .scoord3d name rel with
+  | error e => simp only [hb] at h; cases h
+  | ok a => exact ⟨a, rfl⟩
+
+theorem base_of_mkTcoord {ds name rt arg rel it} (h : mkTcoord ds name rt arg rel = .ok it) :
+    ∃ a, base .tcoord name rel = .ok a := by
+  unfold mkTcoord at h
+  cases hb : base .tcoord name rel with
+  | error e => simp only [hb] at h; cases h
+  | ok a => exact ⟨a, rfl⟩
+
+theorem Built.relValid {it : Item} (h : Built it) : relValid it.attrs = true := by
+  induction h with
+  | code name value rel it h => exact withAttrs_relValid tableOk_code name rel _ it h (by simp [List.lookup])
+  | text name v rel it h => exact withAttrs_relValid tableOk_text name rel _ it h (by simp [List.lookup])
+  | pname name v rel it h => exact withAttrs_relValid tableOk_pname name rel _ it h (by simp [List.lookup])
+  | date name v rel it h => exact withAttrs_relValid tableOk_date name rel _ it h (by simp [List.lookup])
+  | time name v rel it h => exact withAttrs_relValid tableOk_time name rel _ it h (by simp [List.lookup])
+  | datetime name v rel it h => exact withAttrs_relValid tableOk_datetime name rel _ it h (by simp [List.lookup])
+  | uidref name v rel it h => exact withAttrs_relValid tableOk_uidref name rel _ it h (by simp [List.lookup])
+  | num ds name v f unit q rel it h => exact withAttrs_relValid tableOk_num name rel _ it h (by cases q <;> simp [List.lookup])
+  | container name c t rel it h => exact withAttrs_relValid tableOk_container name rel _ it h (by cases t <;> simp [List.lookup])
+  | composite name c i rel it h => exact withAttrs_relValid tableOk_composite name rel _ it h (by simp [List.lookup])
+  | image name c i f s rel it h => exact withAttrs_relValid tableOk_image name rel _ it h (by simp [List.lookup])
+  | waveform name c i ch rel it h => exact withAttrs_relValid tableOk_waveform name rel _ it h (by simp [List.lookup])
+  | scoord fl name gt p o f rel it h =>
+    obtain ⟨a, hb⟩ := base_of_mkScoord h
+    obtain ⟨g, _, _, _, _, e⟩ := mkScoord_ok_iff fl name gt p o f rel it h
+    rw [e]
+    exact shape_relValid _ _ name rel _ (base_ok tableOk_scoord name rel a hb).2 (by cases o <;> cases f <;> simp [List.lookup, optAttr])
+  | scoord3d fl name gt p fo f rel it h =>
+    obtain ⟨a, hb⟩ := base_of_mkScoord3d h
+    obtain ⟨g, _, _, _, e⟩ := mkScoord3d_ok_iff fl name gt p fo f rel it h
+    rw [e]
+    exact shape_relValid _ _ name rel _ (base_ok tableOk_scoord3d name rel a hb).2 (by cases f <;> simp [List.lookup, optAttr])
+  | tcoord ds name rt arg rel it h =>
+    obtain ⟨a, hb⟩ := base_of_mkTcoord h
+    obtain ⟨_, t, _, e⟩ := mkTcoord_ok_iff ds name rt arg rel it h
+    rw [e]
+    exact shape_relValid _ _ name rel _ (base_ok tableOk_tcoord name rel a hb).2 (by cases t <;> simp [List.lookup, tcoordAttrs])
+  | content it cs it' _ _ h ih _ =>
+    obtain ⟨e, _⟩ := setContent_ok h
+    rw [e]
+    cases it with
+    | mk c a k => exact ih
 
 theorem Built.wf {it : Item} (h : Built it) : wf it = true := by
   induction h with
@@ -601,12 +739,12 @@ theorem Built.wf {it : Item} (h : Built it) : wf it = true := by
   | composite name c i rel it h => exact withAttrs_wf tableOk_composite name rel _ it h (by simp [has, List.lookup])
   | image name c i f s rel it h => exact withAttrs_wf tableOk_image name rel _ it h (by simp [has, List.lookup])
   | waveform name c i ch rel it h => exact withAttrs_wf tableOk_waveform name rel _ it h (by simp [has, List.lookup])
-  | scoord name gt p o f rel it h =>
-    obtain ⟨g, _, _, _, e⟩ := mkScoord_ok_iff name gt p o f rel it h
+  | scoord fl name gt p o f rel it h =>
+    obtain ⟨g, _, _, _, _, e⟩ := mkScoord_ok_iff fl name gt p o f rel it h
     rw [e]
     exact shape_wf tableOk_scoord name rel _ (by simp [has, List.lookup])
-  | scoord3d name gt p fo f rel it h =>
-    obtain ⟨g, _, _, e⟩ := mkScoord3d_ok_iff name gt p fo f rel it h
+  | scoord3d fl name gt p fo f rel it h =>
+    obtain ⟨g, _, _, _, e⟩ := mkScoord3d_ok_iff fl name gt p fo f rel it h
     rw [e]
     exact shape_wf tableOk_scoord3d name rel _ (by simp [has, List.lookup])
   | tcoord ds name rt arg rel it h =>
@@ -796,12 +934,12 @@ theorem Built.writes {it : Item} (h : Built it) : writesOkB it.cls (keysOf it) =
     obtain ⟨e, k⟩ := writes_withAttrs tableOk_image name rel _ it h (by intro r; cases r <;> keys_decide); rw [e]; exact k
   | waveform name c i ch rel it h =>
     obtain ⟨e, k⟩ := writes_withAttrs tableOk_waveform name rel _ it h (by intro r; cases r <;> keys_decide); rw [e]; exact k
-  | scoord name gt p o f rel it h =>
-    obtain ⟨g, _, _, _, e⟩ := mkScoord_ok_iff name gt p o f rel it h
+  | scoord fl name gt p o f rel it h =>
+    obtain ⟨g, _, _, _, _, e⟩ := mkScoord_ok_iff fl name gt p o f rel it h
     rw [e, keys_shape]
     cases rel <;> cases o <;> cases f <;> keys_decide
-  | scoord3d name gt p fo f rel it h =>
-    obtain ⟨g, _, _, e⟩ := mkScoord3d_ok_iff name gt p fo f rel it h
+  | scoord3d fl name gt p fo f rel it h =>
+    obtain ⟨g, _, _, _, e⟩ := mkScoord3d_ok_iff fl name gt p fo f rel it h
     rw [e, keys_shape]
     cases rel <;> cases f <;> keys_decide
   | tcoord ds name rt arg rel it h =>
